@@ -19,22 +19,23 @@ cp SEED_NOTES.md "$dst/NOTES.md" 2>/dev/null
 run=$(grep -ho 'func Test[A-Za-z0-9_]*' $demo 2>/dev/null | sed 's/func //' | sort -u | paste -sd'|')
 pkgs=$(for f in $demo; do echo "./$(dirname $f)"; done | sort -u | tr '\n' ' ')
 echo "== demo tests: $run in $pkgs"
-go test -vet=off -count=1 -run "^($run)\$" $pkgs > /tmp/seed-with.log 2>&1; with=$?
+go test -vet=off -count=1 -run "^($run)\$" $pkgs > /tmp/seedlog-$name-with.log 2>&1; with=$?
 # (no git stash: refs/stash is shared by all worktrees of a repository)
 git apply -R "$dst/patch.diff"
-go test -vet=off -count=1 -run "^($run)\$" $pkgs > /tmp/seed-without.log 2>&1; without=$?
+go test -vet=off -count=1 -run "^($run)\$" $pkgs > /tmp/seedlog-$name-without.log 2>&1; without=$?
 git apply "$dst/patch.diff"
 echo "== demo with change: exit $with ; without change: exit $without"
 # suite with the change, demo moved aside
 mkdir -p /tmp/seed-aside-$$; for f in $demo; do mv "$f" /tmp/seed-aside-$$/$(echo $f | tr '/' '_'); done
-go test -vet=off -count=1 -timeout 25m ./... 2>&1 | grep -v "no test files" | tail -4 > /tmp/seed-suite.log; suite=$(grep -c '^FAIL\|^---' /tmp/seed-suite.log)
+go test -vet=off -count=1 -timeout 25m ./... 2>&1 | grep -v "no test files" | tail -4 > /tmp/seedlog-$name-suite.log; suite=$(grep -c '^FAIL\|^---' /tmp/seedlog-$name-suite.log)
 for f in $demo; do mv /tmp/seed-aside-$$/$(echo $f | tr '/' '_') "$f"; done; rmdir /tmp/seed-aside-$$
-cat /tmp/seed-suite.log
+cat /tmp/seedlog-$name-suite.log
 # mutated files for the overlay
 mut=/verif/.build/seed/$name; rm -rf "$mut"; mkdir -p "$mut"
 for f in $changed; do case "$f" in mocks/*) mkdir -p "$mut/mocks"; cp "$f" "$mut/mocks/";; *) cp "$f" "$mut/";; esac; done
 results=""
 cd /verif
+[ -n "${SEED_CONFIRM_ONLY:-}" ] && set --
 for id in "$@"; do
   VERIF_MUTANT=$mut VERIF_OVERLAY_NAME=seed-$name.json VERIF_BIN_PREFIX=seed-$name- ./check $id quick > /verif/.build/seed/$name-$id.log 2>&1; rc=$?
   sig=$(grep -o 'signature=[^ ]*[^\n]*' /verif/.build/seed/$name-$id.log | head -3 | tr '\n' ';' | cut -c1-300)
@@ -45,12 +46,12 @@ python3 - "$name" "$with" "$without" "$suite" "$results" "$changed" <<'PY'
 import json,sys
 name,with_,without,suite,results,changed=sys.argv[1:7]
 meta={"seed":name,"files_changed":changed.split(),"demo_exit_with_change":int(with_),"demo_exit_without_change":int(without),
- "repo_suite_failures_with_change":int(suite),"checks_run_quick":{k:int(v) for k,v in (x.split('=') for x in results.split())},
+ "repo_suite_failures_with_change":int(suite),"checks_run_quick":{k:int(v) for k,v in (x.split('=') for x in results.split())} or None,
  "ran":"tools/seedcheck.sh (demo with/without via git stash in the scratch worktree; full go test ./... with the change; checks through the overlay, /repo untouched)"}
 p='/verif/seeded/%s/meta.json'%name
 try: old=json.load(open(p))
 except Exception: old={}
-old.update(meta)
+old.update({k:v for k,v in meta.items() if v is not None})
 json.dump(old,open(p,'w'),indent=1)
 print(json.dumps(meta))
 PY
